@@ -36,8 +36,9 @@ RULE = ('An expansion unit is an abstract syntax tree drawn by Hypothesis (macro
         'documented string delimiter form); ref/macroref renders text + documented value together. Units outside the documented '
         'domain are discarded and not counted. A unit is non-trivial if it nests macros at least two deep or performs at least '
         'one state change (#LET/#POKES/#PUSHS/#POPS/#DEF) that is followed by a read; distinct = distinct macro text. One '
-        'evaluation = one unit expanded by both writers in all 9 base x case modes (kind unit), one history step (kind hist), '
-        'or one unit in 7 placements x {skool2asm, skool2html} (kind cli).')
+        'evaluation = one unit expanded by both writers in all 9 base x case modes (3 modes covering every base and case once if '
+        'the unit executes #POPS, which costs ~13 ms per call) (kind unit), one history step = whole unit so far + state probe in '
+        'the history\'s mode (kind hist), or one unit in 7 placements x {skool2asm, skool2html} (kind cli).')
 ASSUMPTIONS = [
     'HtmlWriter.expand receives text escaped the way SkoolParser(html=True) escapes comment text (html.escape(text, False))',
     'between units the harness restores the writers (memory cells touched, snapshot stack, #LET variables, #DEF macros)',
@@ -193,7 +194,7 @@ def_node = st.builds(lambda i, fl, ip, sp, body, s: ['def', i, fl, ip, sp, body,
                      st.lists(st.one_of(st.none(), st.none(), I(0, 9)), max_size=3), st.lists(st.one_of(st.none(), safeword, I(0, 2)), max_size=2), text, sf)
 call_node = st.builds(lambda i, args, nkw, sargs, p, s: ['call', i, args, nkw, sargs, p, s], tiny, st.lists(st.one_of(st.none(), expr, num), max_size=3), I(0, 2),
                       st.one_of(st.none(), st.lists(safeword, max_size=2)), pf, sf)
-unit = st.builds(lambda xs: ['seq', xs], st.lists(st.one_of(text, text, text, def_node, call_node), min_size=1, max_size=5))
+unit = st.builds(lambda xs: ['seq', xs], st.lists(st.one_of(text, text, text, text, text, def_node, call_node), min_size=1, max_size=5))
 pc_node = st.builds(lambda g: ['pc', g], tiny)
 cli_unit = st.builds(lambda xs: ['seq', xs], st.lists(st.one_of(text, text, def_node, call_node, pc_node), min_size=1, max_size=4))
 mode_st = st.sampled_from(MODES)
@@ -363,7 +364,7 @@ def record(rec, built, prefix, sample):
     if stt['reads_after_change']:
         klass.append('nt:state-change-then-read')
     for x in stt['excluded']:
-        rec.excluded[x] += 1
+        rec.excluded[FINDING_CLASSES[x]] += 1      # the generator stepped around a known finding here
     rec.case(built['text'], nt, klass, sample)
 
 
@@ -681,14 +682,14 @@ cli_cases = st.builds(lambda a, m: {'kind': 'cli', 'ast': a, 'mode': list(m)}, c
 # ---------------------------------------------------------------------------
 def plan(tier, seed):
     shards = []
-    nunit = 20000 if tier == 'quick' else 1000000
+    nunit = 20000 if tier == 'quick' else 600000
     nsh = 16 if tier == 'quick' else 64
     for i in range(nsh):
         shards.append({'kind': 'unit', 'n': nunit // nsh, 'seed': shard_seed(seed, PROPERTY, 'u%d' % i)})
-    nhist = 256 if tier == 'quick' else 12000
+    nhist = 256 if tier == 'quick' else 8000
     for i in range(16):
         shards.append({'kind': 'hist', 'n': nhist // 16, 'steps': 12 if tier == 'quick' else 30, 'seed': shard_seed(seed, PROPERTY, 'h%d' % i)})
-    ncli = 128 if tier == 'quick' else 10000
+    ncli = 128 if tier == 'quick' else 4000
     for i in range(16):
         shards.append({'kind': 'cli', 'n': ncli // 16, 'seed': shard_seed(seed, PROPERTY, 'c%d' % i)})
     return shards
@@ -735,5 +736,5 @@ def known_class(sig, case):
 MANIFEST_ENTRY = {
     'technique': 'reference-model testing (text and documented value generated together from a macro grammar), ASM/HTML differential through the public expand() API, stateful rule-based histories, and placement invariance through skool2asm.main / skool2html.main',
     'level_text': 'Hypothesis draws abstract expansion units (nesting <= 4, all 19 operators, decimal/$hex literals, fields, positional/blank/omitted/keyword integer parameters, every documented bracket/delimiter form, #() pre-expansion, 18 macros + #DEF-defined macros); ref/macroref (written from skool-macros.rst, no skoolkit import) renders the text and its documented expansion in one pass over a variables/memory/snapshot-stack model; both writers must produce that value in all nine base x case modes; rule-based histories of state-changing macros are probed after every step; a sample is placed in seven places of a skool/ref file and run through the command-line entry points, #PC against its own rule.',
-    'level_note': 'Sampled, not exhaustive. Only forms the documentation makes unambiguous are generated (see ref/macroref.py docstring); units whose value the documentation does not define (negative operands of / % & | ^ << >>, #N of negatives, etc.) are discarded, not judged. Classes excluded as known findings are listed in known_class().',
+    'level_note': 'Sampled, not exhaustive. Only forms the documentation makes unambiguous are generated (see ref/macroref.py docstring); units whose value the documentation does not define (negative operands of / % & | ^ << >>, #N of negatives, #SPACE at a stripped edge, etc.) are discarded, not judged. Five input classes are avoided by construction because they are findings of this check (FINDING_CLASSES; reproducers in corpus/C17/finding-*.json): & < > and quotes in #FOR/#FOREACH separators/items, quote delimiters inside loop bodies, #LET string values with outer whitespace, #DEF without flags of a defined name, & < > in #STR data. #FOREACH special variables (ENTRY/EREF/REF/POKEname) and the cfg dictionary are not generated.',
 }
